@@ -555,6 +555,9 @@ fn tip_never_moves_to_a_chain_with_a_sparse_window() {
                 // 8'..21' against a main chain of 20: the side chain overtakes only at 21', whose own window holds three
                 // tickets — but 8'..18' hold none
                 (20, vec![false, false, false, false, false, false, false, false, false, false, false, true, true, true]),
+                // 8'..21' with tickets in 10', 15', 20', 21': every block has a ticket among its five ancestors and the tip
+                // carries one, but e.g. 9'..14' hold a single ticket
+                (20, vec![false, false, true, false, false, false, false, true, false, false, false, false, true, true]),
             ];
             for (main_len, pattern) in patterns.iter() {
                 let main_len = *main_len;
@@ -679,6 +682,15 @@ fn reorg_below_the_pruning_horizon_matches_a_replay() {
 #[test]
 #[serial_test::serial]
 fn placeholder_typed_transaction_creates_no_output() { privileged_type_scenario(TransactionType::SPV, false, 1) }
+
+/// C01: one issuance-typed transaction after block 1; one ATR-typed transaction the block's own rebroadcast computation
+/// does not produce (paying an ordinary output)
+#[test]
+#[serial_test::serial]
+fn issuance_typed_transaction_after_block_one_creates_no_output() { privileged_type_scenario(TransactionType::Issuance, false, 1) }
+#[test]
+#[serial_test::serial]
+fn unexpected_atr_typed_transaction_creates_no_output() { privileged_type_scenario(TransactionType::ATR, false, 1) }
 
 /// C01: 256 issuance-typed (257 fee-typed) transactions in one block — the counters the block rules look at are bytes
 #[test]
@@ -822,6 +834,24 @@ fn fetched_block_buffers_never_stop_the_verification_thread() {
                 if forwarded > 0 && !expect_forward { let _ = tx_done.send(Some(format!("{} was handed to the consensus thread", what))); return; }
                 if forwarded == 0 && expect_forward { let _ = tx_done.send(Some(format!("{} was not handed to the consensus thread", what))); return; }
                 if forwarded == 0 && charged_after == charged_before { let _ = tx_done.send(Some(format!("{} was dropped without being counted against the peer that served it", what))); return; }
+            }
+            // every proper prefix of a valid block buffer: dropped, charged, no panic
+            for cut in 0..honest_buffer.len() {
+                let r = futures::FutureExt::catch_unwind(std::panic::AssertUnwindSafe(vt.verify_block(&honest_buffer[..cut], 1, honest.hash, 2))).await;
+                if r.is_err() { let _ = tx_done.send(Some(format!("VerificationThread::verify_block panicked on the first {} bytes of a valid {}-byte block buffer", cut, honest_buffer.len()))); return; }
+                if cons_rx.try_recv().is_ok() { let _ = tx_done.send(Some(format!("the first {} bytes of a valid block buffer were handed to the consensus thread as a block", cut))); return; }
+            }
+            // a signed transaction whose slip amounts are close to u64::MAX
+            {
+                use crate::core::consensus::slip::Slip;
+                let (pk, sk) = { let w = t.wallet_lock.read().await; (w.public_key, w.private_key) };
+                let mut huge = Transaction::default();
+                for k in 0..2u64 { let mut i = Slip::default(); i.public_key = pk; i.amount = u64::MAX - 10; i.block_id = 1; i.tx_ordinal = 900 + k; huge.add_from_slip(i); }
+                let mut o = Slip::default(); o.public_key = pk; o.amount = u64::MAX - 5; huge.add_to_slip(o.clone()); huge.add_to_slip(o);
+                huge.sign(&sk);
+                let r = futures::FutureExt::catch_unwind(std::panic::AssertUnwindSafe(vt.verify_tx(huge))).await;
+                if r.is_err() { let _ = tx_done.send(Some("VerificationThread::verify_tx panicked on a signed transaction with two inputs and two outputs of about u64::MAX each".to_string())); return; }
+                if cons_rx.try_recv().is_ok() { let _ = tx_done.send(Some("a transaction spending two non-existent outputs of about u64::MAX each was handed to the consensus thread".to_string())); return; }
             }
             // transactions: only what Transaction::validate accepts goes on to the consensus thread
             let good_tx = honest.transactions.iter().find(|tx| tx.transaction_type == TransactionType::Normal).unwrap().clone();
